@@ -7,6 +7,7 @@ import (
 	"io"
 	"math"
 	"os"
+	"runtime/debug"
 	"strconv"
 	"strings"
 	"time"
@@ -341,6 +342,11 @@ func m4Offsets(b *strings.Builder, es []*gpmf.Element) {
 }
 
 func m4Decode(rs io.ReadSeeker) string {
+	wait := 10 * time.Second
+	if _, sparse := rs.(*sparseFile); sparse {
+		// the library reads the whole media data box, hole included, into memory: gigabytes
+		wait = 5 * time.Minute
+	}
 	ch := make(chan string, 1)
 	go func() {
 		var es []*gpmf.Element
@@ -361,14 +367,15 @@ func m4Decode(rs io.ReadSeeker) string {
 	select {
 	case r := <-ch:
 		return r
-	case <-time.After(10 * time.Second):
+	case <-time.After(wait):
 		return "hang"
 	}
 }
 
 // m4Echo checks the synthesiser against mp4ff: the tables written are the tables parsed.
 func m4Echo(toks []string, file []byte) bool {
-	f, err := mp4.DecodeFile(m4Reader(toks, file))
+	// (lazy mode: the echo has no use for the media data, and a file with a hole is large)
+	f, err := mp4.DecodeFile(m4Reader(toks, file), mp4.WithDecodeMode(mp4.DecModeLazyMdat))
 	if cvField(toks, "track") != "1" {
 		return true
 	}
@@ -404,6 +411,10 @@ func execM4(_ *config, op string) string {
 	file := []byte(unhexStr(cvField(toks, "file")))
 	if !m4Echo(toks, file) {
 		return "synth-mismatch"
+	}
+	if cvField(toks, "gap") != "" {
+		// give the gigabytes back before the next case asks for its own
+		defer debug.FreeOSMemory()
 	}
 	return m4Decode(m4Reader(toks, file))
 }
@@ -675,7 +686,7 @@ func corpusM4(cfg *config) []string {
 			co: []uint64{m4PayloadBase, uint64(m4PayloadBase + len(one)), uint64(m4PayloadBase + len(one) + len(two))}}
 		t5.holeAt = len(one) + len(two)
 		t5.holeLen = h.target - uint64(m4PayloadBase+t5.holeAt)
-		if cfg.tier == "quick" && h.target > 1<<31 {
+		if cfg.tier == "quick" && (h.target != 1<<31 || h.fast) {
 			continue // one multi-gigabyte (virtual) file is enough for the quick tier
 		}
 		ops = append(ops, m4Op("wf", t5, t5.file(p3)))
